@@ -152,11 +152,13 @@ def convert(infile, out_file_name, **options):  # type: (str, str, **str) -> Non
             change_tuples = options['changeFrameId'].split(',')
             for renameTuple in change_tuples:
                 old, new = renameTuple.split(':')
-                frame = db.frame_by_id(canmatrix.ArbitrationId(int(old)))
+                # the identifier number alone selects the frame: 11-bit and 29-bit frames can both be addressed
+                old_id = int(old)
+                frame = next((f for f in db.frames if f.arbitration_id.id == old_id), None)
                 if frame is not None:
                     frame.arbitration_id.id = int(new)
                 else:
-                    logger.error("frame with id {} not found", old)
+                    logger.error("frame with id %s not found", old)
 
         if 'setFrameFd' in options and options['setFrameFd'] is not None:
             fd_frame_list = options['setFrameFd'].split(',')
